@@ -117,3 +117,67 @@ cur = cur1_
 )
 
 UNITS = [write_continue]
+
+
+# ---------------------------------------------------------------------------------------------------------
+# write_lines (C13/U2, DESIGN.md A.2).  The callee write_continue is used through its contract only: it needs a
+# non-empty line (IndexError otherwise) and appends its physical lines to out(fp); the whole group is abstracted
+# as the token WC(payload, indent at the call, spaces).
+import z3
+from pyvc.values import VFun, VNone, VInt, HList
+from pyvc.methods import WC
+
+
+def _wc_callee(ref):
+    def call(ex, st, args, kw, node):
+        fp, line, spaces = args
+        s = ex.want_str(line, st, node)
+        ex.safety(st, "IndexError", z3.Length(s) >= 1, node, "write_continue needs a non-empty line")
+        me = st.heap[ref.oid]
+        out = st.heap[fp.oid].f["out"]
+        c = ex.as_hlist(st.heap[out.oid])
+        st.heap[out.oid] = HList("str", c.n + 1, z3.Store(c.arr, c.n, WC(s, me.f["indent"].e, spaces.e)))
+        return VNone()
+    return VFun("WrapperMixin.write_continue[contract]", call)
+
+
+write_lines = Unit(
+    prop="C13", name="write_lines", target="shroud/util.py::WrapperMixin.write_lines",
+    params={"self": ("obj", "WrapperMixin", {"indent": "int"}), "fp": "file", "lines": "list[py]", "spaces": "str"},
+    requires=["all(isint(lines[i]) or isstr(lines[i]) for i in range(len(lines)))"],
+    callees={("WrapperMixin", "write_continue"): _wc_callee},
+    # IndexError is raised exactly for a piece that consists of directive characters only ("-", "--", "+", "+-",
+    # "@"): generated code never contains one and C13 does not speak about it.
+    raises=["IndexError"],
+    init="s0 = ''\nn0 = 0\nind0 = 0\n",
+    loops={
+        0: {"index": "i0", "inv": ["len(fp.out) >= 0"]},
+        1: {"index": "i1",
+            "head": "s0 = subline\nn0 = len(fp.out)\nind0 = self.indent\n",
+            # per piece: exactly the documented effect; directive characters steer indentation only and the payload
+            # handed on is the piece minus exactly those characters
+            "end": r"""
+assert implies(len(s0) == 0, len(fp.out) == n0 + 1 and fp.out[n0] == "\n" and self.indent == ind0)
+assert implies(len(s0) > 0 and s0[0] == "#", len(fp.out) == n0 + 2 and fp.out[n0] == s0 and fp.out[n0 + 1] == "\n" and self.indent == ind0)
+assert implies(len(s0) > 0 and s0[0] == "^", len(fp.out) == n0 + 2 and fp.out[n0] == s0[1:] and fp.out[n0 + 1] == "\n" and self.indent == ind0)
+assert implies(len(s0) > 0 and s0[0] == "@", len(fp.out) == n0 + 1 and fp.out[n0] == WC(s0[1:], ind0, spaces) and self.indent == ind0)
+assert implies(len(s0) > 0 and s0[0] == "+" and s0[-1] == "-", len(fp.out) == n0 + 1 and fp.out[n0] == WC(s0[1:-1], ind0 + 1, spaces) and self.indent == ind0)
+assert implies(len(s0) > 0 and s0[0] == "+" and s0[-1] != "-", len(fp.out) == n0 + 1 and fp.out[n0] == WC(s0[1:], ind0 + 1, spaces) and self.indent == ind0 + 1)
+""" + r"""
+nd_ = (ind0 - self.indent if s0[-1] != "+" else ind0 - self.indent + 1) if len(s0) > 0 else 0
+assert implies(len(s0) > 0 and s0[0] not in "#^@+", nd_ >= 0 and nd_ < len(s0) and s0[nd_] != "-")
+assert implies(len(s0) > 0 and s0[0] not in "#^@+", all(s0[j] == "-" for j in range(nd_)))
+assert implies(len(s0) > 0 and s0[0] not in "#^@+" and s0[-1] == "+", len(fp.out) == n0 + 1 and fp.out[n0] == WC(s0[nd_:-1], ind0 - nd_, spaces) and self.indent == ind0 - nd_ + 1)
+assert implies(len(s0) > 0 and s0[0] not in "#^@+" and s0[-1] != "+", len(fp.out) == n0 + 1 and fp.out[n0] == WC(s0[nd_:], ind0 - nd_, spaces) and self.indent == ind0 - nd_)
+""",
+            "inv": ["len(fp.out) >= 0"]},
+        2: {"inv": ["ind0 - self.indent >= 0 and ind0 - self.indent <= len(s0)",
+                    "subline == s0[ind0 - self.indent:]",
+                    "all(s0[j] == '-' for j in range(ind0 - self.indent))",
+                    "len(fp.out) == n0"],
+            "decreases": "len(subline)"},
+    },
+    ensures=[],
+)
+
+UNITS.append(write_lines)
